@@ -12,7 +12,7 @@ HOOKS = {
     "guard": "cargo feature `verif-hooks` of rml_rtmp (off by default)",
     "enable": "the harness crate /verif/harness depends on /repo/rtmp by path with features = [\"verif-hooks\"] (harness/Cargo.toml); H1 = rml_rtmp::handshake::verif_hooks (deterministic handshake fill), H2 = session clock shift",
     "baseline_off_cmd": "cd /repo && cargo test --workspace --no-fail-fast --offline",
-    "source_commits": ["19ee666", "18d9cf5"],
+    "source_commits": ["19ee666", "18d9cf5", "03b9f02"],
     "add_only": True,
 }
 
@@ -22,8 +22,21 @@ NOTES = ("Technique family: machine-checked proof in Lean 4. Every claimed prope
          "hand-written model in lean/Rml/Model, tied to /repo by the correspondence run of tools/check.py. See DESIGN.md.")
 
 PROPS = {
-    "C09": dict(lean=["Rml.Props.C20"], families=["server"], level_text="wip", level_note="wip"),
-    "C10": dict(lean=["Rml.Props.C20"], families=["client"], level_text="wip", level_note="wip"),
+    "C09": dict(
+        lean=["Rml.Props.C09"], families=["server"],
+        level_text="Proved on the byte-level model of the server session, for EVERY state (hence after every history): publish/play before an accepted connection request are never surfaced — only an `_error` packet, no request recorded (C09_gate_publish/_play); `connected` and the app name arise only from accepting a connection request (C09_connected_by_accept); a surfaced request carries the id nextReq (C09_fresh_id_publish) and, by the history invariant Inv (preserved by every input call — whatever bytes arrive, failing or not — and by accept: C09_inv_handleInput, C09_inv_accept), that id and the next stream id were never issued before (C09_fresh_ids); an id that is not outstanding is refused with NO state change and answering consumes the id, so a second accept/reject is refused (C09_unknown_id_refused, _answer_consumes, _second_answer_refused); createStream issues nextStream and answers `_result` with the caller's transaction id on stream 0; media events are raised iff the stream is currently publishing, tagged with its key and the accepted app name (C09_media_iff_publishing, _accept_publish_sets_publishing); close/delete of a publishing stream raises exactly one finished event and a repeat raises none (C09_finished_once); ping requests are answered with PingResponse of the same timestamp (C09_ping_echo).",
+        level_note="Trusted: Lean kernel; the session model (Rml/Model/ServerSession.lean, ~350 lines, composed from the deserializer, message, AMF0 and serializer models) is tied to the real ServerSession by the `server` family: random walks over the property's alphabet with a mostly-valid warm-up prefix, ids from {valid, stale, never issued}, every op interpreted by both sides under hook H2; outbound packets compared after the reference chunk reader (headers byte-exact, AMF0 maps sorted). Request/stream counters are unbounded Nat in the model (u32 in Rust: < 2^32 requests per session assumed). Depends on fixes F5, F6, F11.",
+    ),
+    "C10": dict(
+        lean=["Rml.Props.C10"], families=["client"],
+        level_text="Proved on the byte-level model of the client session, for EVERY state: each public request from a state that does not permit it is refused, emits nothing and changes nothing (C10_guard_connect/_stream/_publish); a permitted request registers exactly one transaction under the fresh id nextTxn (C10_connect_registers, _stream_registers); a result or error for a transaction id whose `f64 as u32` is not outstanding is reported as unknown and not applied (C10_unknown_transaction); a connect result moves to Connected with the requested app, emits window-ack, accepted event, SetChunkSize in that order and switches the serializer to the configured chunk size (C10_connect_result); a createStream result requires a numeric stream id, makes `f64 as u32` of it the active stream and moves to Play/PublishRequested with the play (+ buffer length) or publish command (C10_create_result); start statuses apply only from the matching requested state (C10_status); media events only for the active stream while play is requested or running (C10_media_gate); stop emits deleteStream(active id) on that stream and returns to Connected, and is a no-op elsewhere (C10_stop, _stop_noop, _stop_message); ping requests are echoed (C10_ping_echo).",
+        level_note="Trusted: Lean kernel; client session model tied to the real ClientSession by the `client` family (random walks with warm-up prefix, transaction ids from {current, stale, never issued, non-integral, NaN}, every op interpreted by both sides under hook H2). Transaction counter unbounded Nat in the model (u32 in Rust).",
+    ),
+    "C17": dict(
+        lean=["Rml.Props.C17"], families=["ack"],
+        level_text="Proved for EVERY window W ≥ 1 and EVERY list of call sizes on the acknowledgement step both session models run at the head of handle_input (Sess.ackStep): an acknowledgement is emitted in exactly the calls in which the count since the previous one reaches W and reports that count (C17_step, C17_emit_iff); fewer than W bytes are outstanding after every call, for every fragmentation (C17_outstanding_lt, _run); Σ reported + outstanding = Σ call sizes, i.e. no byte is acknowledged twice or never (C17_conservation); nothing is counted before a window is known; the saturating counter of fix F10 never exceeds u32::MAX and still acknowledges when the window is reached; both session models call exactly this step with the window known before the call (C17_server/_client_uses_ackStep).",
+        level_note="Trusted: Lean kernel; 'since the window was learned' read call-granularly (DESIGN §9a.3); count < 2^32 in the value/conservation theorems (4 GiB outstanding is refused by saturation instead). Model tied to code by the `ack` family: both session kinds, W = 1..8 × ALL size lists of length ≤ 4 over {0,1,2,3,W-1,W,W+1} on the real sessions against an independent counter, large windows sampled, and srv.in/cli.in correspondences with acknowledgement packets compared byte-exactly (hook H2). Depends on fix F10.",
+    ),
     "C05": dict(
         lean=["Rml.Props.C05"], families=["hs"],
         level_text="PARTIAL proof, with hmac and both random fills arbitrary. Proved: the five-stage loop of process_bytes equals a straight-line closed form for EVERY state and input (processBytes_eq_procSpec); against ANY peer stream 3‖p1‖p2‖tail (digest-bearing or original) a party, in either start mode, emits 3‖own p1‖answer (3073 bytes), completes and returns exactly `tail` (C05_one_call_fresh/_started, C05_emits_3073); no input shorter than 3073 bytes completes it (C05_no_early_completion); bad version byte and post-completion input are refused. NOT yet a theorem: the same for every partition into calls and every two-party schedule; covered by hs.xfer schedules interpreted by model and real code (byte-exact under hook H1) and the !hs.pair oracle on real handshakes incl. an original-handshake peer under many fragmentations and trailing data.",
